@@ -9,7 +9,7 @@ from .values import (SymStr, Choice, SymList, Obj, OPAQUE, Unsupported, is_z3, i
 from .ctx import PyRaise, Killed, NoFork, Explorer, Ctx
 from .ops import Ops
 from .src import ModuleInfo, ShapeMismatch, loops_of
-from .interp_expr import ExprMixin, FuncRef, ClassRef, ModRef, BoundMethod, Builtin, UF
+from .interp_expr import ExprMixin, FuncRef, ClassRef, ModRef, BoundMethod, Builtin, UF, HarnessStub
 from .interp_stmt import StmtMixin, Frame, _Return, _Break, _Continue, SymRange, SymEnumerate
 
 EXC_NAMES = {"ValueError", "IndexError", "TypeError", "KeyError", "ZeroDivisionError", "OverflowError",
@@ -97,6 +97,8 @@ class Interp(ExprMixin, StmtMixin):
             if q is not None:
                 return q[0]
         fn = self.eval(frame, node.func)
+        if isinstance(fn, Builtin) and fn.name == "cast" and len(node.args) == 2:
+            return self.eval(frame, node.args[1])        # typing.cast(T, x) is x; T is dropped (DESIGN section 2)
         args = []
         for a in node.args:
             if isinstance(a, ast.Starred):
@@ -251,6 +253,8 @@ class Interp(ExprMixin, StmtMixin):
             return self.call_builtin(fn.name, args, kwargs, w)
         if isinstance(fn, ClassRef):
             return self.construct(fn, args, kwargs, frame, node)
+        if isinstance(fn, HarnessStub):
+            return fn.fn(*args, **kwargs)
         if isinstance(fn, UF):
             t = fn.decl(*[self.ops.lift_int(a) for a in args])
             if self.ctx.qreads is not None and len(args) >= 1:
@@ -419,20 +423,27 @@ class Interp(ExprMixin, StmtMixin):
     def call_merged(self, f, args, kwargs, w, logical=False):
         """Explore all paths of a small helper and merge them into one summary (strongest postcondition)."""
         ctx = self.ctx
+        from . import ranges
         outer_pc = list(ctx.pc)
+        saved_bounds = dict(ranges.BOUNDS)
         lists = [a for a in args if isinstance(a, list)]
         snap = [list(l) for l in lists]
         sub = Explorer(ctx.settings)
+        # inside the helper, feasibility is judged from the helper's own branch conditions and the interval facts only:
+        # an over-approximation (extra summarised paths are guarded by their conditions), and much cheaper
+        sub.ignore_prefix = len(outer_pc)
         outcomes = []
 
         def task(sctx):
             sctx.pc = list(outer_pc)
+            ranges.BOUNDS.update(saved_bounds)      # interval facts of the enclosing path hold in the helper too
             sctx.memo = ctx.memo
             sctx.fresh_n = ctx.fresh_n
             for l, s0 in zip(lists, snap):
                 l[:] = s0
             it = Interp(sctx, self.repo, self.registry, self.specs, self.by_contract, self.extra_globals)
             it.depth = self.depth + 1
+            it.naming_off = True       # definitions made on a helper's own path would not outlive it
             sctx.nofork = 0
             sctx.sides = None
             n0 = len(outer_pc)
@@ -444,6 +455,9 @@ class Interp(ExprMixin, StmtMixin):
             return None
 
         sub.explore(task)
+        ranges.BOUNDS.clear()
+        ranges.BOUNDS.update(saved_bounds)          # facts learned on the helper's own paths do not outlive them
+        ranges._MEMO.clear()
         self.ctx.ex.branch_checks += sub.branch_checks
         for l, s0 in zip(lists, snap):
             l[:] = s0
@@ -479,8 +493,9 @@ class Interp(ExprMixin, StmtMixin):
                 new_state.append(m[0])
             state = new_state
         for l, s1 in zip(lists, state):
-            l[:] = [z3.simplify(x) if is_z3(x) else x for x in s1]
-        return val
+            l[:] = [self.name_term(z3.simplify(x), "m") if is_z3(x) else x for x in s1]
+        return self.name_term(val, "r") if is_z3(val) and not isinstance(val, (tuple, list)) else (
+            tuple(self.name_term(x, "r") if is_z3(x) else x for x in val) if isinstance(val, tuple) else val)
 
     # ------------------------------------------------------------------ methods of built-in containers
     def call_method(self, obj, name, args, kwargs, w):
@@ -548,6 +563,8 @@ class Interp(ExprMixin, StmtMixin):
         ctx = self.ctx
         if name == "print":
             return None
+        if name == "cast" and len(args) == 2:
+            return args[1]
         if name in EXC_NAMES:
             return OPAQUE
         if name == "len":
